@@ -40,6 +40,26 @@ theorem C09_random_range (digest : List UInt8) (h : digest.length = 16) :
     0 ≤ Token.randomToken digest ∧ Token.randomToken digest ≤ (2:Int)^127 :=
   Token.randomToken_range digest h
 
+/-- **Random partitioner on the KEY**, every key of every length: with `md5.Sum` = RFC 1321 (Model/MD5.lean, an
+    executable specification tied to crypto/md5 by the differential op `randomk` and checked against the RFC's test
+    suite below), the token is the absolute value of the digest read as a signed 128-bit integer, in 0 … 2^127. -/
+theorem C09_random_of_key (key : List UInt8) :
+    Token.randomTokenOfKey key = Token.Spec.randomToken (MD5.sum key) ∧
+    0 ≤ Token.randomTokenOfKey key ∧ Token.randomTokenOfKey key ≤ (2:Int)^127 := by
+  have h16 : (MD5.sum key).length = 16 := by simp [MD5.sum, MD5.out32, MD5.lenBytes]
+  exact ⟨C09_random _ h16, C09_random_range _ h16⟩
+
+/-- RFC 1321 appendix A.5 test suite ("", "a", "abc", "message digest", and the 80-digit message: two chunks) -/
+example : MD5.sum [] = [0xd4,0x1d,0x8c,0xd9,0x8f,0x00,0xb2,0x04,0xe9,0x80,0x09,0x98,0xec,0xf8,0x42,0x7e] := by decide +kernel
+example : MD5.sum [0x61] = [0x0c,0xc1,0x75,0xb9,0xc0,0xf1,0xb6,0xa8,0x31,0xc3,0x99,0xe2,0x69,0x77,0x26,0x61] := by decide +kernel
+example : MD5.sum [0x61,0x62,0x63] = [0x90,0x01,0x50,0x98,0x3c,0xd2,0x4f,0xb0,0xd6,0x96,0x3f,0x7d,0x28,0xe1,0x7f,0x72] := by decide +kernel
+example : MD5.sum [0x6d,0x65,0x73,0x73,0x61,0x67,0x65,0x20,0x64,0x69,0x67,0x65,0x73,0x74]
+    = [0xf9,0x6b,0x69,0x7d,0x7c,0xb7,0x93,0x8d,0x52,0x5a,0x2f,0x31,0xaa,0xf1,0x61,0xd0] := by decide +kernel
+example : MD5.sum ((List.replicate 8 [0x31,0x32,0x33,0x34,0x35,0x36,0x37,0x38,0x39,0x30]).flatten)
+    = [0x57,0xed,0xf4,0xa2,0x2b,0xe3,0xc9,0x55,0xac,0x49,0xda,0x2e,0x21,0x07,0xb6,0x7a] := by decide +kernel
+/-- a key whose digest is negative as a signed integer ("a": 0x0c… is positive; "abc": 0x90… is negative) -/
+example : Token.randomTokenOfKey [0x61,0x62,0x63] = 148866708576779697295343134153845407886 := by decide +kernel
+
 /-- Order-preserving partitioner: unsigned bytewise lexicographic order is a strict total order and
     equal tokens ↔ equal keys. -/
 theorem C09_ordered :
